@@ -162,7 +162,7 @@ func VF_C14_manifest_debuginfo_bytecode_agree() {
 			vfAssert(opcode.Opcode(c14Script[m.Offset]) == opcode.INITSLOT && int(c14Script[m.Offset+2]) == m.Params, m.Name+":bytecode-takes-declared-parameters")
 		}
 	}
-	vfAssert(nExported == 33, "all-exported-functions-in-manifest")
+	vfAssert(nExported == 34, "all-exported-functions-in-manifest")
 }
 
 //vf:tier quick
@@ -211,9 +211,9 @@ func VF_C14_control_flow() {
 //vf:tier quick
 //vf:bigint theory
 //vf:unwind 400
-//vf:bound calls: C14MultiRet (a, b in [-128,127]; thorough: |a|,|b| < 2^20), C14Fact and C14Fib (n in [-2, 6]), C14Recover and C14Panics (a in [-128,127]; thorough |a| < 2^20)
+//vf:bound calls: C14MultiRet (a, b in [-128,127]; thorough: |a|,|b| < 2^20), C14Fact and C14Fib (n in [-2, 6]), C14Recover, C14RecoverPair and C14Panics (a in [-128,127]; thorough |a| < 2^20)
 func VF_C14_calls_and_panics() {
-	switch vfChoose("fn", 0, 4) {
+	switch vfChoose("fn", 0, 5) {
 	case 0:
 		a, b := c14Arg("a", 20), c14Arg("b", 20)
 		c14CheckInt("c14MultiRet", func() int { return C14MultiRet(a, b) }, a, b)
@@ -229,6 +229,9 @@ func VF_C14_calls_and_panics() {
 	case 4:
 		a := c14Arg("a", 20)
 		c14CheckInt("c14Panics", func() int { return C14Panics(a) }, a)
+	case 5:
+		a := c14Arg("a", 20)
+		c14CheckInt("c14RecoverPair", func() int { return C14RecoverPair(a) }, a)
 	}
 }
 
